@@ -19,7 +19,7 @@ ASSUMPTIONS = ['power / image tolerances 4e-2 (>= 6x the worst interpolation res
                'scale factors are drawn so that n*s is not within 1e-9 of an integer unless it is exactly one']
 PLAN = {'quick': {'gen': 8}, 'thorough': {'gen': 16, 'tests': 1, 'docs': 1}}
 REQUIRED_BUCKETS = ['s<1', 's>1', 's=1', 's:integer', 'shape:odd', 'shape:even', 'shape:nonsquare', 'monolithic', 'segmented',
-                    'resample', 'resample:refused', 'scalar-attributes', 'mask-dtype']
+                    'resample', 'resample:refused', 'scalar-attributes', 'mask-dtype', 'amp:signed', 's:decimal-near-integer-product']
 REQUIRED_ANCHORS = ['probe:Plane.rescale', 'anchor:Plane.resample', 'anchor:util.rescale', 'anchor:_plane_slice']
 REQUIRED_ORACLES = ['pixelscale/s', 'shape=ceil(n*s)', 'mask:binary+segments', 'original-untouched', 'identity', 'power',
                     'image', 'extent', 'resample=rescale', 'resample:refused']
@@ -60,18 +60,21 @@ def rescale_oracle(ctx, args, kwargs, result, exc, pre):
         ctx.skip('rescale: shapeless plane')
         return
     n = mask.shape[-2:]
-    q = (n[0] * s, n[1] * s)
-    if any(abs(v - round(v)) < 1e-9 * max(1.0, v) and v != round(v) for v in q):
-        ctx.skip('rescale: n*s at a ceil() tie')
-        return
-    want_shape = (int(np.ceil(q[0])), int(np.ceil(q[1])))
+    # ceil(n*s) of the scale factor that was actually passed (a double): evaluated exactly in rational arithmetic; when the
+    # double product n*s rounds onto an integer that the exact product misses, either reading of the rule is accepted
+    from fractions import Fraction
+    import math
+    exact = tuple(math.ceil(Fraction(int(k)) * Fraction(s)) for k in n)
+    flt = tuple(int(np.ceil(k * s)) for k in n)
+    want_shape = exact
     rm_ = np.asarray(result.mask)
     shapes = {'mask': rm_.shape[-2:]}
     if np.ndim(plane.amplitude) > 1:
         shapes['amplitude'] = np.shape(result.amplitude)
     if np.ndim(plane.opd) > 1:
         shapes['opd'] = np.shape(result.opd)
-    ctx.check(all(tuple(v) == want_shape for v in shapes.values()), 'shape=ceil(n*s)', 'rescale|shape',
+    ctx.check(all(len(v) == 2 and all(int(v[k]) in (exact[k], flt[k]) for k in (0, 1)) for v in shapes.values())
+              and len({tuple(int(x) for x in v) for v in shapes.values()}) == 1, 'shape=ceil(n*s)', 'rescale|shape',
               'rescaled arrays do not have ceil(n*s) samples', dict(wit, got={k: list(v) for k, v in shapes.items()}, want=list(want_shape)))
     binary = bool(np.all((rm_ == 0) | (rm_ == 1)))
     same_segments = rm_.ndim == mask.ndim and (mask.ndim == 2 or rm_.shape[0] == mask.shape[0])
@@ -129,11 +132,26 @@ def workload(ctx, lentil):
     for i in range(n_cases):
         n = gen.rshape(rng, 24, 64, square_p=0.4)
         s = draw_scale(rng, n)
+        if i % 6 == 5:
+            # decimal scale factors on sizes for which n*s is an integer in decimal arithmetic (1.1 * 50, 0.55 * 40, ...): the
+            # double nearest to the factor puts the product a hair above or below it, and ceil() has to follow the product
+            n = (int(rng.choice([40, 50, 60])), int(rng.choice([40, 60])))      # (large enough to stay resolved at s = 0.55)
+            s = float(rng.choice([1.1, 0.55, 1.3, 1.85, 1.35, 0.7, 0.6, 1.2, 1.4, 1.7, 1.15, 2.3, 0.65, 1.9]))
+            ctx.bucket('s:decimal-near-integer-product')
         p = int(rng.choice([2, 4]))
         w = float(rng.uniform(0.12, 0.2))
-        amp = supergauss(n, w, p, rng.uniform(-2, 2), rng.uniform(-2, 2)) * float(rng.uniform(0.5, 2))
+        # "to interpolation accuracy" presupposes an aperture that is still resolved after the rescale: a 1/e radius of at
+        # least 2.5 samples of the coarser of the two grids
+        w = min(0.22, max(w, 2.5 / (min(n) * min(s, 1.0))))
+        base = supergauss(n, w, p, rng.uniform(-2, 2), rng.uniform(-2, 2)) * float(rng.uniform(0.5, 2))
+        amp = base
         ii, jj = np.indices(n)
         x, y = (ii - n[0] // 2) / n[0], (jj - n[1] // 2) / n[1]
+        signed = i % 5 == 2
+        if signed:
+            # a real amplitude that changes sign smoothly (a TEM10-like field: 0 / pi phase stored as the sign)
+            amp = base * (x * np.cos(0.3 * i) + y * np.sin(0.3 * i)) / w
+            ctx.bucket('amp:signed')
         wl = float(rng.uniform(5e-7, 1e-6))
         c = rng.normal(size=5) * 0.25
         opd = wl * (c[0] * x * y + c[1] * x * x + c[2] * y * y + c[3] * x + c[4] * y)
@@ -145,7 +163,9 @@ def workload(ctx, lentil):
             k = int(rng.integers(2, 5))
             ang = np.arctan2(ii - n[0] // 2 + 0.3, jj - n[1] // 2 + 0.2)
             lab = np.floor((ang + np.pi) / (2 * np.pi) * k).astype(int) % k
-            kw['mask'] = np.array([(lab == q) & (amp > 0) for q in range(k)]).astype(float)
+            kw['mask'] = np.array([(lab == q) & (base > 0) for q in range(k)]).astype(float)
+        elif signed:
+            kw['mask'] = (base > 0).astype(float)
         desc = {'shape': list(n), 's': s, 'p': p, 'w': w, 'seg': int(kw['mask'].shape[0]) if seg else 0, 'dx': dx, 'wl': wl}
         bks = ['s<1' if s < 1 else 's>1', 'shape:odd' if (n[0] % 2 or n[1] % 2) else 'shape:even',
                'segmented' if seg else 'monolithic'] + (['shape:nonsquare'] if n[0] != n[1] else []) + \
@@ -218,7 +238,7 @@ def workload(ctx, lentil):
         if i % 4 == 1:
             # masks of integer / boolean dtype, and a plane that has already been rescaled once (a history of two calls)
             ctx.bucket('mask-dtype')
-            mk = (amp > 0) if not seg else (kw['mask'] > 0)
+            mk = (base > 0) if not seg else (kw['mask'] > 0)
             for dt in (int, bool, np.uint8):
                 try:
                     pi_ = lentil.Pupil(amplitude=amp, opd=opd, mask=mk.astype(dt), pixelscale=dx, focal_length=z)
@@ -247,6 +267,6 @@ def workload(ctx, lentil):
         if i % 7 == 0:
             # scalar opd / scalar amplitude with array mask
             ctx.bucket('scalar-attributes')
-            m2 = (amp > 0.1 * amp.max()).astype(float)
+            m2 = (base > 0.1 * base.max()).astype(float)
             lentil.Pupil(amplitude=amp, opd=0, pixelscale=dx, focal_length=z).rescale(s)
             lentil.Plane(amplitude=1, opd=0, mask=m2, pixelscale=dx).rescale(s)
